@@ -216,7 +216,8 @@ func eqConstsIn(f *ssa.Function) map[int64]bool {
 	out := map[int64]bool{}
 	eachInstr(f, func(b *ssa.BasicBlock, i int, in ssa.Instruction) {
 		bo, ok := in.(*ssa.BinOp)
-		if !ok || bo.Op != token.EQL {
+		// `x == C` selects the arm; `x != C` followed by the error path leaves the arm for C
+		if !ok || (bo.Op != token.EQL && bo.Op != token.NEQ) {
 			return
 		}
 		if n, ok := constInt(bo.Y); ok {
@@ -288,7 +289,7 @@ func ruleAlphabet(r *Run, p *Prog) {
 			flush()
 		}
 	}
-	handled := eqConstsIn(tag)
+	handled := eqConstsIn(p.View(tag, "", nil))
 	var tags []int64
 	for t := range emitted {
 		tags = append(tags, t)
@@ -441,6 +442,10 @@ func ruleDecoderEscape(r *Run, p *Prog) {
 	}
 	// who asks for the verbatim channel
 	ds := p.Func(cborRel, "decodeString")
+	tagSet := map[*ssa.Function]bool{}
+	if tg := p.Func(cborRel, "decodeTagData"); tg != nil {
+		tagSet = p.exclusiveHelpers(tg)
+	}
 	if ds != nil {
 		for cf, sites := range callersOf(p, ds, "*") {
 			for _, s := range sites {
@@ -453,7 +458,7 @@ func ruleDecoderEscape(r *Run, p *Prog) {
 					continue
 				}
 				if b {
-					ok := cf.Name() == "decodeTagData"
+					ok := tagSet[cf]
 					r.Ob("ESCAPE", FnName(cf)+"/verbatim", p.Pos(s.Pos()), ok, true, tern(ok, "verbatim payload requested by the tag decoder (embedded JSON / octets that are re-formatted)", "a byte string is requested verbatim (unescaped, unquoted) outside the tag decoder"))
 				} else {
 					r.Ob("ESCAPE", FnName(cf)+"/quoted", p.Pos(s.Pos()), true, false, "quoted, escaped byte string")
@@ -474,25 +479,35 @@ func ruleTagOctets(r *Run, p *Prog) {
 		return
 	}
 	ej, _ := cborConst(p, "additionalTypeEmbeddedJSON")
+	dsOrig := ds
+	tag = p.View(tag, "keep-decodeString", func(g *ssa.Function) bool { return g == dsOrig })
 	eachInstr(tag, func(b *ssa.BasicBlock, i int, in ssa.Instruction) {
 		c, ok := in.(*ssa.Call)
 		if !ok || staticCallee(&c.Call) != ds {
 			return
 		}
-		// is this value returned directly or appended raw?
+		// is this value returned directly or appended raw? (through the result phis of inlined helpers)
 		rawUse := ""
-		for _, ref := range referrersOf(c) {
-			switch x := ref.(type) {
-			case *ssa.Return:
-				rawUse = "returned as is"
-			case *ssa.Call:
-				if builtinName(&x.Call) == "append" {
-					if sp, _ := appendElems(x); sp == ssa.Value(c) {
-						rawUse = "appended raw"
+		var follow func(v ssa.Value, depth int)
+		follow = func(v ssa.Value, depth int) {
+			for _, ref := range referrersOf(v) {
+				switch x := ref.(type) {
+				case *ssa.Return:
+					rawUse = "returned as is"
+				case *ssa.Phi:
+					if depth < 4 {
+						follow(x, depth+1)
+					}
+				case *ssa.Call:
+					if builtinName(&x.Call) == "append" {
+						if sp, _ := appendElems(x); sp == v {
+							rawUse = "appended raw"
+						}
 					}
 				}
 			}
 		}
+		follow(c, 0)
 		if rawUse == "" {
 			r.Ob("ESCAPE", FnName(tag)+"/octets-formatted", p.Pos(c.Pos()), true, true, "verbatim octets are only re-formatted (address / hex text)")
 			return
